@@ -1,20 +1,57 @@
 #!/usr/bin/env python3
 """Both-ways self-test: every mutant (mutants/*.patch: single-site edits and reverts of the fix commits) and every
 confirmed seeded change (seeded/*/patch.diff) is applied to /repo's working tree (must be clean), the check of its
-property is run and must report a violation; the tree is restored afterwards. Writes selftest_results.json."""
+property is run and must report a violation; the tree is restored afterwards. Writes selftest_results.json.
+
+The work can be split over several checkouts of the repository that run side by side (the checks read the tree named by
+JRSA_REPO): `SELFTEST_REPO=<worktree> SELFTEST_SHARD=i/n SELFTEST_OUT=<file> tools/selftest.py` does every n-th item on
+that worktree and writes a partial result; `tools/selftest.py --merge <file>..` joins the parts, checks the clean tree and
+writes selftest_results.json."""
 import glob, json, os, re, subprocess, sys, time
 
 VERIF = os.path.dirname(os.path.dirname(os.path.abspath(__file__)))
+REPO = os.environ.get("SELFTEST_REPO", "/repo")
+SHARD = os.environ.get("SELFTEST_SHARD")
+OUT = os.environ.get("SELFTEST_OUT")
 
 
 def sh(cmd, cwd=None):
-    env = dict(os.environ, JRSA_EVIDENCE_DIR="/var/tmp/jrsa-scratch-evidence")
+    env = dict(os.environ, JRSA_EVIDENCE_DIR="/var/tmp/jrsa-scratch-evidence" + ("-" + SHARD.replace("/", "of") if SHARD else ""), JRSA_REPO=REPO)
     return subprocess.run(cmd, shell=True, cwd=cwd, capture_output=True, text=True, env=env)
 
 
+def finish(res, benign):
+    quiet = []
+    for i in range(1, 21):
+        o = sh("./check C%02d --tier quick" % i, VERIF)
+        if o.returncode != 0:
+            quiet.append("C%02d" % i)
+    print("clean tree: %s" % ("all 20 checks exit 0" if not quiet else "ALARMS: %s" % quiet))
+    json.dump({"repo_head": sh("git rev-parse --short HEAD", REPO).stdout.strip(), "results": res, "benign": benign, "clean_tree_alarms": quiet,
+               "killed": sum(1 for r in res if r["killed"]), "total": sum(1 for r in res if r["applies"])}, open(os.path.join(VERIF, "selftest_results.json"), "w"), indent=1)
+
+
 def main():
+    if sys.argv[1:2] == ["--merge"]:
+        res, benign = [], []
+        for f in sys.argv[2:]:
+            d = json.load(open(f))
+            res += d["results"]
+            benign += d["benign"]
+        res.sort(key=lambda r: (r["kind"] != "mutant", r["name"]))
+        benign.sort(key=lambda r: r["name"])
+        finish(res, benign)
+        print("killed %d / %d; benign quiet %d / %d" % (sum(1 for r in res if r["killed"]), sum(1 for r in res if r["applies"]), sum(1 for b in benign if b.get("applies") and not b.get("alarms")), len(benign)))
+        for r in res:
+            if r["applies"] and not r["killed"]:
+                print("MISSED", r["name"])
+        for b in benign:
+            if b.get("alarms"):
+                print("FALSE ALARM", b["name"], b["alarms"])
+        return
     only = sys.argv[1:]
-    assert sh("git status --porcelain --untracked-files=no", "/repo").stdout.strip() == "", "/repo not clean"
+    shard = tuple(int(x) for x in SHARD.split("/")) if SHARD else None
+    assert sh("git status --porcelain --untracked-files=no", REPO).stdout.strip() == "", "/repo not clean"
     items = []
     for p in sorted(glob.glob(os.path.join(VERIF, "mutants", "*.patch"))):
         name = os.path.basename(p)[:-6]
@@ -24,11 +61,13 @@ def main():
         if os.path.exists(os.path.join(d, "patch.diff")):
             items.append((name, name.split("-")[0], os.path.join(d, "patch.diff"), "seeded"))
     res = []
-    for name, pid, patch, kind in items:
+    for idx, (name, pid, patch, kind) in enumerate(items):
         if only and name not in only and pid not in only:
             continue
+        if shard and idx % shard[1] != shard[0]:
+            continue
         t0 = time.time()
-        r = sh("git apply %s" % patch, "/repo")
+        r = sh("git apply %s" % patch, REPO)
         if r.returncode != 0:
             res.append({"name": name, "kind": kind, "property": pid, "applies": False, "killed": None})
             print("%-50s does not apply" % name)
@@ -36,7 +75,7 @@ def main():
         try:
             o = sh("./check %s --tier quick" % pid, VERIF)
         finally:
-            sh("git checkout -- .", "/repo")
+            sh("git checkout -- .", REPO)
         viol = re.findall(r"^VIOLATION property=\S+ replay=.*/%s-(.*)\.json$" % pid, o.stdout, re.M)
         msgs = [l for l in o.stdout.splitlines() if re.match(r"^\S*:\d+\s+C\d\d\.|^-\s+\S+", l)]
         killed = o.returncode == 1 and bool(viol)
@@ -44,11 +83,13 @@ def main():
         print("%-50s %s  %s" % (name, "KILLED " if killed else "MISSED ", (viol[0] if viol else "")[:90]))
     # behaviour-preserving edits (benign/*.patch: renames, refactors) must leave every check quiet
     benign = []
-    for p in sorted(glob.glob(os.path.join(VERIF, "benign", "*.patch"))):
+    for idx, p in enumerate(sorted(glob.glob(os.path.join(VERIF, "benign", "*.patch")))):
         name = os.path.basename(p)[:-6]
         if only and name not in only and "benign" not in only:
             continue
-        r = sh("git apply %s" % p, "/repo")
+        if shard and idx % shard[1] != shard[0]:
+            continue
+        r = sh("git apply %s" % p, REPO)
         if r.returncode != 0:
             benign.append({"name": name, "applies": False})
             print("%-50s does not apply" % name)
@@ -60,19 +101,13 @@ def main():
                 if o.returncode != 0:
                     alarms.append("C%02d" % i)
         finally:
-            sh("git checkout -- .", "/repo")
+            sh("git checkout -- .", REPO)
         benign.append({"name": name, "applies": True, "alarms": alarms})
         print("%-50s %s" % ("benign/" + name, "QUIET" if not alarms else "FALSE ALARM %s" % alarms))
-    # the clean tree must be quiet
-    if not only:
-        quiet = []
-        for i in range(1, 21):
-            o = sh("./check C%02d --tier quick" % i, VERIF)
-            if o.returncode != 0:
-                quiet.append("C%02d" % i)
-        print("clean tree: %s" % ("all 20 checks exit 0" if not quiet else "ALARMS: %s" % quiet))
-        json.dump({"repo_head": sh("git rev-parse --short HEAD", "/repo").stdout.strip(), "results": res, "benign": benign, "clean_tree_alarms": quiet,
-                   "killed": sum(1 for r in res if r["killed"]), "total": sum(1 for r in res if r["applies"])}, open(os.path.join(VERIF, "selftest_results.json"), "w"), indent=1)
+    if OUT:
+        json.dump({"results": res, "benign": benign}, open(OUT, "w"), indent=1)
+    elif not only:
+        finish(res, benign)
     k = sum(1 for r in res if r["killed"])
     print("killed %d / %d" % (k, sum(1 for r in res if r["applies"])))
 
